@@ -44,8 +44,11 @@ type vector struct {
 	Fr Form   `json:"fr"`
 	An Form   `json:"an"`
 	// tl
-	Bytes string `json:"bytes"`
-	Exp   Form   `json:"exp"`
+	Bytes  string   `json:"bytes"`
+	Rd     string   `json:"rd"`
+	At     int      `json:"at"`
+	Chunks []string `json:"chunks"`
+	Exps   []Form   `json:"exps"`
 	// tlb
 	Bits string `json:"bits"`
 	Cls  string `json:"cls"`
@@ -182,6 +185,10 @@ func replayOne(v *vector) (*checker, error) {
 		c.judge("UnmarshalTL", v.TL, want, back, err)
 		back, err = tlDecodeGeneric(raw)
 		c.judge("tl.Unmarshal", v.TL, want, back, err)
+		for _, kind := range tlReaderKinds[1:] {
+			back, err = tlDecodeVia(kind, raw, false)
+			c.judge("UnmarshalTL["+kind+"]", v.TL, want, back, err)
+		}
 		if v.URL != "" {
 			c.eq("ToHuman", "", v.URL, id.ToHuman(v.Bounce, v.Testnet))
 			c.parseAll(v.URL, none, want, want)
@@ -218,10 +225,24 @@ func replayOne(v *vector) (*checker, error) {
 		if err != nil {
 			return nil, err
 		}
-		id, err := tlDecode(raw)
-		c.judge("UnmarshalTL", v.Bytes, v.Exp, id, err)
-		id, err = tlDecodeGeneric(raw)
-		c.judge("tl.Unmarshal", v.Bytes, v.Exp, id, err)
+		var chunks [][]byte
+		for _, ch := range v.Chunks {
+			b, err := hex.DecodeString(ch)
+			if err != nil {
+				return nil, err
+			}
+			chunks = append(chunks, b)
+		}
+		for _, generic := range []bool{false, true} {
+			fn := "UnmarshalTL"
+			if generic {
+				fn = "tl.Unmarshal"
+			}
+			ids, errs := tlDecodeN(tlReader(v.Rd, raw, chunks), len(v.Exps), generic)
+			for i, exp := range v.Exps {
+				c.judge(fmt.Sprintf("%s#%d", fn, i+1), fmt.Sprintf("%s via %s at %d", v.Bytes, v.Rd, v.At), exp, ids[i], errs[i])
+			}
+		}
 	case "tlb":
 		m, pid, err := tlbDecode(v.Bits)
 		switch v.Cls {
